@@ -34,7 +34,9 @@ FEED = dict(p_loss=0.05, n_foreign=(0, 3), max_polls=3, poll_every=(40.0, 160.0)
 
 
 def make_spec(st, idx, tier):
-    return C.state_spec(st, tier, WORLD, PROFILE, FEED, min_units=30)
+    spec = C.state_spec(st, tier, WORLD, PROFILE, FEED, min_units=30)
+    C.arrival_polls(st, spec)
+    return spec
 
 
 def order_mismatch(keys_list):
